@@ -630,9 +630,9 @@ PROPERTIES["C14"] = {
         "technique": "symbolic execution (mirsym, z3) of the connection interface's and the ingress engine's coroutine MIR with a symbolic timeout option and a recording timer object",
         "text": "Kernels of the timeout clause. On a full pipe the tokio session's connection interface fails at once with a would-block error for SNDTIMEO=0 (message handed back / not enqueued, no timer), arms a timer of exactly SNDTIMEO for every positive value and fails with Timeout/ResourceLimitReached only when it has elapsed (message not enqueued), arms NO timer for SNDTIMEO=-1 (waits until there is room), and completes with the message enqueued exactly once when room appears. On an empty queue PULL/SUB recv()/recv_multipart() do the same for RCVTIMEO and never lose a message that arrives after a refused or timed-out call. The inproc transport's connection meets the same send obligations. Kernel of the buffering clause: a session never frames more messages than SNDHWM leaves room for (framed-and-pending + new batch <= SNDHWM in buffered-write mode), a batch never exceeds SNDBATCH_COUNT, and the carry-over between cycles stays below SNDBATCH_COUNT (inductive step over both places that pull from the socket's pipe) - so one connection buffers at most SNDHWM messages in the socket-to-session pipe, SNDHWM framed in the session, and fewer than SNDBATCH_COUNT in the carry-over.",
         "design_ref": "DESIGN.md §5 (C14)",
-        "note": "NOT claimed: the receive-side bound (RCVHWM, ingress queues), the vectored-write mode's pending_vectored queue (gated to one batch by its own guard; the guard is part of the region only for the carry-over branch), the socket-level wrappers (PUSH's tokio timeout around routing, DEALER pending queue, ROUTER send permits), addressed ingress (REQ/REP/ROUTER/DEALER recv), wall-clock accuracy of tokio timers. The io_uring connection's send timeouts are C20's kernel.",
+        "note": "NOT claimed: the receive-side bound (RCVHWM, ingress queues), the vectored-write mode's pending_vectored queue (gated to one batch by its own guard; the guard is part of the region only for the carry-over branch), the socket-level wrappers (PUSH's tokio timeout around routing, DEALER pending queue, ROUTER send permits, REQ's select over its reply notifier), wall-clock accuracy of tokio timers. The io_uring connection's send timeouts are C20's kernel.",
     },
-    "outside": "receive-side HWM bound, socket-level wrappers, addressed ingress, timer accuracy",
+    "outside": "receive-side HWM bound, socket-level wrappers, timer accuracy",
 }
 
 PROPERTIES["C15"] = {
@@ -718,3 +718,8 @@ PROPERTIES["C14"]["mirsym"].append(
 PROPERTIES["C09"]["manifest"]["text"] += " ROUTER: a recv dropped at any poll of its wait loop (identity gate, held messages of not-yet-identified connections) loses nothing: every message that arrived is still returned exactly once, per connection in order."
 PROPERTIES["C14"]["manifest"]["text"] += " ROUTER recv: the wait loop arms its timer so that it expires RCVTIMEO after the call started, however many times the loop goes round (peers attaching, identities finalized, messages of unidentified connections held) - and none for RCVTIMEO -1; once the deadline has passed the call returns Timeout or a message."
 PROPERTIES["C11"]["manifest"]["text"] += " The blocking receive loop of the ROUTER keeps the identity gate too: only messages of connections whose identity is final are returned, per connection in arrival order, and the call does not stay parked while such a message waits."
+PROPERTIES["C14"]["mirsym"].append(
+    M("c14_addressed_recv_timeouts", "d_c14", "addressed_recv_timeouts",
+      "AddressedIngressEngine::recv_logical_message (REQ / REP / DEALER receive path, nested ReadyPipeQueue::pop coroutine) on an empty queue; RCVTIMEO in {-1, 0, any positive value (symbolic)}; recording timer; then: a 2-frame message arrives / still empty / timer elapsed, and a message arriving after a refused or timed-out call is read back",
+      budget={"quick": 300, "thorough": 400},
+      required_covers=["c14.ingress-recv.wouldblock", "c14.ingress-recv.completed-after-wait", "c14.ingress-recv.still-waiting", "c14.ingress-recv.timed-out"]))
